@@ -62,6 +62,20 @@ def rule_a(R, ctx):
     sib_async(R, "C12.a", Y, UM + "::redo", UM + "::redo_blocking")
 
 
+def keep_propagates(R, ctx, rid):
+    """the merged block of a squash is kept if the absorbed block was (a kept tombstone must not become collectable by being
+    merged into an unkept neighbour)."""
+    Y = ctx.yrs
+    sq = Y.fn("yrs::block::ItemPtr::try_squash")
+    sv = FnView(sq)
+    sk = sq.calls_to("yrs::block::ItemFlags::set_keep")
+    ok = bool(sk) and all(sv.has_guard(c.bb, lambda l: lit_call(l, "yrs::block::ItemFlags::is_keep", True) and root_name(simp(l.term)[2][0]) == "other") for c in sk)
+    R.ob(rid, sq, "keep-propagates", ok,
+         "try_squash: self.info.set_keep() under other.info.is_keep()" if ok else
+         "try_squash does not carry the KEEP flag of the absorbed block into the merged block (set_keep calls: %d): a tombstone an undo "
+         "manager still needs becomes collectable by a forced GC after it is squashed into an unkept neighbour" % len(sk))
+
+
 def rule_b(R, ctx):
     Y = ctx.yrs
     R.rule("C12.b", "R-PAIR+R-GUARD undoable tombstones survive GC: UndoManager::handle_after_transaction calls keep(true) on every "
@@ -114,11 +128,7 @@ def rule_b(R, ctx):
         g = cv.guards(i)
         ok = any(lit_call(l, "yrs::block::Item::is_deleted", True) for l in g) and any(lit_call(l, "yrs::block::ItemFlags::is_keep", False) for l in g)
         R.ob("C12.b", cm, "replace#%d" % k, ok, "guards: %s" % [l.desc for l in g][-3:], "%s:%s" % (cm.file, s["line"]))
-    sq = Y.fn("yrs::block::ItemPtr::try_squash")
-    sv = FnView(sq)
-    sk = sq.calls_to("yrs::block::ItemFlags::set_keep")
-    ok = bool(sk) and all(sv.has_guard(c.bb, lambda l: lit_call(l, "yrs::block::ItemFlags::is_keep", True) and root_name(simp(l.term)[2][0]) == "other") for c in sk)
-    R.ob("C12.b", sq, "keep-propagates", ok, "self.info.set_keep() iff other.info.is_keep(): %s" % ok)
+    keep_propagates(R, ctx, "C12.b")
     kp = Y.fn("yrs::block::ItemPtr::keep")
     kv = FnView(kp)
     sk = kp.calls_to("yrs::block::ItemFlags::set_keep")
